@@ -1037,6 +1037,20 @@ def _eq(val1, val2) -> float:
     return _eq_distance(val1, val2)
 
 
+def _exact_str(value: str) -> str:
+    """Provides an exact ``str`` for an instance of a ``str`` subclass.
+
+    The string distances use ``len`` and indexing, which a subclass may override.
+
+    Args:
+        value: a string, possibly an instance of a subclass of ``str``
+
+    Returns:
+        the same characters as an instance of ``str`` itself
+    """
+    return value if type(value) is str else str.__str__(value)
+
+
 def _eq_distance(val1, val2) -> float:
     """How far two unequal values are from being equal.
 
@@ -1052,7 +1066,7 @@ def _eq_distance(val1, val2) -> float:
     if is_numeric(val1) and is_numeric(val2):
         return float(abs(val1 - val2))
     if is_string(val1) and is_string(val2):
-        return string_distance(val1, val2)
+        return string_distance(_exact_str(val1), _exact_str(val2))
     if is_bytes(val1) and is_bytes(val2):
         return string_distance(val1.decode("iso-8859-1"), val2.decode("iso-8859-1"))
     return inf
@@ -1103,7 +1117,7 @@ def _lt_distance(val1, val2) -> float:
     if is_numeric(val1) and is_numeric(val2):
         return (float(val1) - float(val2)) + 1.0
     if is_string(val1) and is_string(val2):
-        return string_lt_distance(val1, val2)
+        return string_lt_distance(_exact_str(val1), _exact_str(val2))
     if is_bytes(val1) and is_bytes(val2):
         return string_lt_distance(val1.decode("iso-8859-1"), val2.decode("iso-8859-1"))
     return inf
@@ -1139,7 +1153,7 @@ def _le_distance(val1, val2) -> float:
     if is_numeric(val1) and is_numeric(val2):
         return float(val1) - float(val2)
     if is_string(val1) and is_string(val2):
-        return string_le_distance(val1, val2)
+        return string_le_distance(_exact_str(val1), _exact_str(val2))
     if is_bytes(val1) and is_bytes(val2):
         return string_le_distance(val1.decode("iso-8859-1"), val2.decode("iso-8859-1"))
     return inf
